@@ -262,6 +262,9 @@ def run_kernel_op(f, accel, mem):
     oh, ow, od = o["height"], o["width"], o["depth"]
     rmode = o["rounding"]
     extra_reads = []
+    if o["bits"] == 32 or f["ifm"]["bits"] == 32:
+        # whether and how zero points and scaling apply on the 32-bit paths is not pinned down by anything available here (H6)
+        raise Unmodelled("32-bit feature map datapath")
     if kind in ("conv", "depthwise"):
         P, V, iaddr = window_input(mem, f)
         W, bias, scl, shf, extra_reads = decode_weight_volume(mem, f, accel)
@@ -312,6 +315,8 @@ def run_kernel_op(f, accel, mem):
                 f["_approximate"] = True
     elif kind == "elementwise":
         mode = f["mode"]
+        if f["ifm"]["bits"] == 32 or o["bits"] == 32:
+            raise Unmodelled("32-bit elementwise datapath")
         a, iaddr = read_ifm(mem, f, "ifm", (oh, ow, od))
         b = None
         if "broadcast" in f:
